@@ -16,6 +16,7 @@ pub fn main(_args: &[String]) -> i32 {
     crate::bump::dump_tables(&mut kv);
     crate::strs::dump_tables(&mut kv);
     crate::readline::dump_tables(&mut kv);
+    crate::render::dump_tables(&mut kv);
     crate::proc::dump_tables(&mut kv);
     crate::limits::dump_tables(&mut kv);
     crate::capture::dump_tables(&mut kv);
